@@ -318,5 +318,12 @@ XmlDenotes ==
   \A force \in BOOLEAN :
      LET rd == ReadAX(EncAX(ms, "d1", force, NoObs)) IN
      ReadBagEq(rd, src) \/ ShadowExplains(src, rd)
+(* ... and for the transcribed PROV-N printer: where its output is grammatical (identified or      *)
+(* attributed expressions of the four kinds PROV-N gives no such syntax are KF-C06-noid), reading   *)
+(* it as the recommendation says denotes the document                                               *)
+ProvNDenotes ==
+  LET src == ModelSrc("d1")
+      pn  == EncPN(ms, "d1")
+  IN APNWf(pn) => (ReadBagEq(ReadAPN(pn), src) \/ ShadowExplains(src, ReadAPN(pn)))
 IndexOK == \A h \in DOMAIN ms.con : ms.con[h].kind # "loose" => IndexCoherent(ms.con[h])
 =============================================================================
